@@ -945,6 +945,504 @@ def _translate_source(src_text: str, src_name: str) -> Translation:
     return T
 
 
+# ------------------------------------------------------------------------------------------
+# configuration -> constructor arguments -> constructed objects   (round-3 extension)
+#
+# `translate_config` reads, from the CURRENT sources,
+#   custom_normalizations.py   NormalizationConfig (dataclass fields + defaults),
+#                              CustomNormalization.__init__ (signature, interval / stretch dispatch),
+#                              CustomNormalization._set_limits, NORMALIZATION_PRESETS
+#   visualization.py           the `CustomNormalization(...)` call of _show_2d_array / _show_2d_combined
+# and emits `Gen_Cfg.v`:
+#   Record NormalizationConfig / CN_args (+ *_default)    show_2d_array_args / show_2d_combined_args
+#   interval_obj / stretch_obj, so_call, so_domain        CN_init_interval / CN_init_stretch
+#   io_get_limits, CN_set_limits, CN_set_limits_bool      NORMALIZATION_PRESETS
+# Fail closed: an unknown field type, a constructor argument that is not `norm_config.<field>` or
+# a literal, a statement of __init__ / _set_limits outside the shapes below -> TranslateError.
+
+
+class ConfigTranslation:
+    def __init__(self):
+        self.lines: list[str] = []
+        self.fields: list = []        # NormalizationConfig: [(name, ty, default)]
+        self.params: list = []        # CustomNormalization.__init__: [(name, ty, default)]
+        self.presets: dict = {}       # name -> {field: python value}
+        self.show_calls: dict = {}    # function -> {param: ("field", f) | ("const", v)}
+        self.has_data: dict = {}      # function -> bool (limits frozen at construction)
+        self.interval_classes: list = []
+        self.stretch_classes: list = []
+
+
+def _ann_type(st):
+    ann = ast.unparse(st.annotation).replace(" ", "")
+    if ann == "float":
+        return "R"
+    if ann in ("float|None", "None|float", "Optional[float]"):
+        return "optR"
+    if ann == "str":
+        return "string"
+    _fail(st, "field / parameter type outside the accepted grammar")
+
+
+def _lit_value(node, ty):
+    """literal default / argument -> python value (Fraction | None | str)"""
+    if isinstance(node, ast.Constant):
+        v = node.value
+        if v is None:
+            if ty != "optR":
+                _fail(node, "None for a non-optional field")
+            return None
+        if isinstance(v, str):
+            if ty != "string":
+                _fail(node, "string literal for a numeric field")
+            return v
+        if isinstance(v, bool) or not isinstance(v, (int, float)):
+            _fail(node, "unsupported literal")
+        if ty == "string":
+            _fail(node, "numeric literal for a string field")
+        if isinstance(v, float) and (v != v or v in (float("inf"), float("-inf"))):
+            _fail(node, "non-finite literal")
+        return Fraction(*float(v).as_integer_ratio()) if isinstance(v, float) else Fraction(v)
+    if isinstance(node, ast.UnaryOp) and isinstance(node.op, ast.USub):
+        v = _lit_value(node.operand, ty)
+        if not isinstance(v, Fraction):
+            _fail(node, "unsupported literal")
+        return -v
+    _fail(node, "value is not a literal")
+
+
+def _coq_string(s: str) -> str:
+    if '"' in s or any(ord(ch) < 32 or ord(ch) > 126 for ch in s):
+        raise TranslateError("string literal %r outside the printable grammar" % s)
+    return '"%s"%%string' % s
+
+
+def _coq_value(v, ty) -> str:
+    if ty == "string":
+        return _coq_string(v)
+    if ty == "optR":
+        return "None" if v is None else "(Some %s)" % _num(v)
+    return _num(v)
+
+
+def _coq_ty(ty):
+    return {"R": "R", "optR": "option R", "string": "string"}[ty]
+
+
+def _ctor_args(call: ast.Call, fields, value_of, what):
+    """map positional / keyword arguments of a constructor call onto `fields`
+    [(name, ty, default)]; returns {field: value_of(node, ty)}"""
+    names = [f[0] for f in fields]
+    tys = {f[0]: f[1] for f in fields}
+    out = {}
+    if len(call.args) > len(names):
+        _fail(call, "%s: too many positional arguments" % what)
+    for nm, a in zip(names, call.args):
+        if isinstance(a, ast.Starred):
+            _fail(call, "%s: starred argument" % what)
+        out[nm] = value_of(a, tys[nm])
+    for kw in call.keywords:
+        if kw.arg is None:
+            _fail(call, "%s: ** argument" % what)
+        if kw.arg not in tys:
+            _fail(call, "%s: unknown field `%s`" % (what, kw.arg))
+        if kw.arg in out:
+            _fail(call, "%s: field `%s` given twice" % (what, kw.arg))
+        out[kw.arg] = value_of(kw.value, tys[kw.arg])
+    return out
+
+
+def translate_config(cn_text: str, vis_text: str) -> ConfigTranslation:
+    C = ConfigTranslation()
+    tree = ast.parse(cn_text)
+    classes = {n.name: n for n in tree.body if isinstance(n, ast.ClassDef)}
+    for need in ("NormalizationConfig", "CustomNormalization", "ManualInterval", "CenteredInterval", "QuantileInterval"):
+        if need not in classes:
+            raise TranslateError("class %s not found" % need)
+
+    # ------------------------------------------------------------ NormalizationConfig
+    nc = classes["NormalizationConfig"]
+    if [ast.unparse(d) for d in nc.decorator_list] != ["dataclass"] or nc.bases:
+        raise TranslateError("NormalizationConfig must be a plain @dataclass")
+    for st in _strip_doc(nc.body):
+        if not isinstance(st, ast.AnnAssign):
+            _fail(st, "NormalizationConfig: only annotated fields are accepted")
+        ty = _ann_type(st)
+        if st.value is None:
+            _fail(st, "NormalizationConfig field without default")
+        C.fields.append((st.target.id, ty, _lit_value(st.value, ty)))
+    fnames = [f[0] for f in C.fields]
+    ftys = {f[0]: f[1] for f in C.fields}
+
+    # ------------------------------------------------------------ CustomNormalization.__init__ signature
+    cn = classes["CustomNormalization"]
+    init = _method(cn, "__init__")
+    if init is None:
+        raise TranslateError("CustomNormalization.__init__ not found")
+    a = init.args
+    if a.vararg or a.kwarg or a.posonlyargs:
+        _fail(init, "__init__ signature outside the grammar")
+    pos = a.args[1:]
+    pos_defaults = [None] * (len(pos) - len(a.defaults)) + list(a.defaults)
+    sig = [(p, d, True) for p, d in zip(pos, pos_defaults)] + \
+          [(p, d, False) for p, d in zip(a.kwonlyargs, a.kw_defaults)]
+    n_positional = 0
+    for p, d, is_pos in sig:
+        if p.arg == "data":
+            if not (isinstance(d, ast.Constant) and d.value is None):
+                _fail(init, "`data` must default to None")
+            continue
+        if p.annotation is None or d is None:
+            _fail(init, "__init__ parameter `%s` without annotation / default" % p.arg)
+        fake = ast.AnnAssign(target=ast.Name(id=p.arg), annotation=p.annotation, value=d, simple=1)
+        ast.copy_location(fake, p)
+        ty = _ann_type(fake)
+        C.params.append((p.arg, ty, _lit_value(d, ty)))
+        if is_pos:
+            n_positional += 1
+    pnames = [p[0] for p in C.params]
+    ptys = {p[0]: p[1] for p in C.params}
+    # fail closed on a field that exists on one side only (it could not reach the constructor / would be
+    # silently left at its default)
+    only_cfg = [n for n in fnames if n not in ptys]
+    only_ctor = [n for n in pnames if n not in ftys]
+    if only_cfg or only_ctor:
+        raise TranslateError("NormalizationConfig fields and CustomNormalization.__init__ parameters differ: "
+                             "only in the configuration %s, only in the constructor %s" % (only_cfg, only_ctor))
+    for n in fnames:
+        if ftys[n] != ptys[n]:
+            raise TranslateError("field `%s` has type %s in the configuration and %s in the constructor"
+                                 % (n, ftys[n], ptys[n]))
+
+    # ------------------------------------------------------------ interval / stretch classes
+    itv = {}
+    for cname in ("QuantileInterval", "ManualInterval", "CenteredInterval"):
+        itv[cname] = []
+        for st in classes[cname].body:
+            if isinstance(st, ast.AnnAssign):
+                ty = _ann_type(st)
+                itv[cname].append((st.target.id, ty, None if st.value is None else _lit_value(st.value, ty)
+                                   if not (isinstance(st.value, ast.Constant) and st.value.value is None) else None))
+    stretch = {}
+    for cname, cls in classes.items():
+        if cname.endswith("Stretch"):
+            fl = []
+            for n, ty, d in _fields(cls):
+                fl.append((n, ty, None if d in (None, "None") else _const_eval(d)))
+            stretch[cname] = fl
+    C.interval_classes, C.stretch_classes = list(itv), list(stretch)
+
+    L = C.lines
+    L.append("(* GENERATED by harness/translate_norm.py (translate_config) from custom_normalizations.py and "
+             "visualization.py — do not edit *)")
+    L.append("From Coq Require Import Reals String List.")
+    L.append("From QV.lib Require Import C20_NpReal.")
+    L.append("From Gen20 Require Import Gen_Norm.")
+    L.append("Import ListNotations.")
+    L.append("Local Open Scope R_scope.")
+    L.append("")
+    L.append("Record NormalizationConfig : Type := mkNormalizationConfig {\n  %s }." % ";\n  ".join(
+        "nc_%s : %s" % (n, _coq_ty(ty)) for n, ty, _ in C.fields))
+    L.append("Definition NormalizationConfig_default : NormalizationConfig :=\n  {| %s |}." % ";\n     ".join(
+        "nc_%s := %s" % (n, _coq_value(d, ty)) for n, ty, d in C.fields))
+    L.append("Record CN_args : Type := mkCN_args {\n  %s }." % ";\n  ".join(
+        "a_%s : %s" % (n, _coq_ty(ty)) for n, ty, _ in C.params))
+    L.append("Definition CN_args_default : CN_args :=\n  {| %s |}." % ";\n     ".join(
+        "a_%s := %s" % (n, _coq_value(d, ty)) for n, ty, d in C.params))
+    L.append("")
+
+    # ------------------------------------------------------------ the call sites in visualization.py
+    vtree = ast.parse(vis_text)
+    vfuncs = {n.name: n for n in vtree.body if isinstance(n, ast.FunctionDef)}
+    for fname in ("_show_2d_array", "_show_2d_combined"):
+        if fname not in vfuncs:
+            raise TranslateError("visualization.py: %s not found" % fname)
+        fn = vfuncs[fname]
+        params = [x.arg for x in fn.args.args + fn.args.kwonlyargs]
+        if "norm" not in params or fn.args.kwarg is None:
+            _fail(fn, "%s must take `norm` and **kwargs" % fname)
+        cfg_var, calls = None, []
+        for node in ast.walk(fn):
+            if (isinstance(node, ast.Assign) and isinstance(node.value, ast.Call)
+                    and isinstance(node.value.func, ast.Name) and node.value.func.id == "_resolve_normalization"):
+                c = node.value
+                ok = (len(node.targets) == 1 and isinstance(node.targets[0], ast.Name) and cfg_var is None
+                      and len(c.args) == 1 and isinstance(c.args[0], ast.Name) and c.args[0].id == "norm"
+                      and len(c.keywords) == 1 and c.keywords[0].arg is None
+                      and isinstance(c.keywords[0].value, ast.Name) and c.keywords[0].value.id == fn.args.kwarg.arg)
+                if not ok:
+                    _fail(node, "%s: configuration must be resolved once as `_resolve_normalization(norm, **kwargs)`" % fname)
+                cfg_var = node.targets[0].id
+            if isinstance(node, ast.Call) and isinstance(node.func, ast.Name) and node.func.id == "CustomNormalization":
+                calls.append(node)
+            if isinstance(node, ast.Assign) and any(isinstance(t, ast.Name) and t.id == "norm" for t in node.targets):
+                _fail(node, "%s: `norm` is reassigned" % fname)
+        if cfg_var is None or len(calls) != 1:
+            raise TranslateError("%s: expected one _resolve_normalization(...) and one CustomNormalization(...) call"
+                                 % fname)
+        for node in ast.walk(fn):
+            if isinstance(node, (ast.Assign, ast.AugAssign, ast.AnnAssign)):
+                tg = node.targets if isinstance(node, ast.Assign) else [node.target]
+                for t in tg:
+                    if isinstance(t, ast.Name) and t.id == cfg_var and not (
+                            isinstance(node, ast.Assign) and isinstance(node.value, ast.Call)
+                            and isinstance(node.value.func, ast.Name) and node.value.func.id == "_resolve_normalization"):
+                        _fail(node, "%s: the resolved configuration is reassigned" % fname)
+                    if isinstance(t, ast.Attribute) and isinstance(t.value, ast.Name) and t.value.id == cfg_var:
+                        _fail(node, "%s: the resolved configuration is modified" % fname)
+        call = calls[0]
+
+        def value_of(node, ty, _cfg=cfg_var):
+            if isinstance(node, ast.Attribute) and isinstance(node.value, ast.Name) and node.value.id == _cfg:
+                if node.attr not in ftys:
+                    _fail(node, "unknown configuration field")
+                if ftys[node.attr] != ty:
+                    _fail(node, "configuration field of another type")
+                return ("field", node.attr)
+            return ("const", _lit_value(node, ty))
+
+        kws = [k for k in call.keywords if k.arg != "data"]
+        C.has_data[fname] = any(k.arg == "data" for k in call.keywords)
+        plain = ast.Call(func=call.func, args=call.args, keywords=kws)
+        ast.copy_location(plain, call)
+        if len(call.args) > n_positional:
+            _fail(call, "%s: too many positional constructor arguments" % fname)
+        got = _ctor_args(plain, C.params, value_of, fname + ": CustomNormalization(...)")
+        C.show_calls[fname] = got
+        items = []
+        for n, ty, d in C.params:
+            if n in got:
+                kind, v = got[n]
+                items.append("a_%s := %s" % (n, "nc_%s c" % v if kind == "field" else _coq_value(v, ty)))
+            else:
+                items.append("a_%s := %s" % (n, _coq_value(d, ty)))      # left to the __init__ default
+        L.append("Definition %s_args (c : NormalizationConfig) : CN_args :=\n  {| %s |}." % (
+            fname.lstrip("_"), ";\n     ".join(items)))
+    L.append("")
+
+    # ------------------------------------------------------------ objects
+    def binders(fl):
+        return " ".join("(%s : %s)" % (n, _coq_ty(ty)) for n, ty, _ in fl)
+
+    L.append("Inductive interval_obj : Type :=\n%s." % "\n".join(
+        "| IO_%s %s" % (c, binders(fl)) for c, fl in itv.items()))
+    L.append("Inductive stretch_obj : Type :=\n%s." % "\n".join(
+        "| SO_%s %s" % (c, binders(fl)) for c, fl in stretch.items()))
+    L.append("Definition so_call (o : stretch_obj) : R -> R :=\n  match o with\n%s\n  end." % "\n".join(
+        "  | SO_%s %s => %s_call %s" % (c, " ".join(f[0] for f in fl), c, " ".join(f[0] for f in fl))
+        for c, fl in stretch.items()))
+    L.append("Definition so_domain (o : stretch_obj) : Prop :=\n  match o with\n%s\n  end." % "\n".join(
+        "  | SO_%s %s => %s_domain %s" % (c, " ".join(f[0] for f in fl), c, " ".join(f[0] for f in fl))
+        for c, fl in stretch.items()))
+    L.append("Definition io_get_limits (o : interval_obj) (quantile : R -> R) (dmin dmax : R) : R * R :=\n"
+             "  match o with\n%s\n  end." % "\n".join(
+                 "  | IO_%s %s => %s_get_limits %s%s%s" % (
+                     c, " ".join(f[0] for f in fl), c, "quantile " if c == "QuantileInterval" else "",
+                     " ".join(f[0] for f in fl), "" if c == "QuantileInterval" else " dmin dmax")
+                 for c, fl in itv.items()))
+    L.append("")
+
+    # ------------------------------------------------------------ __init__ dispatch
+    def cond(n):
+        if isinstance(n, ast.BoolOp):
+            return ("and" if isinstance(n.op, ast.And) else "or", [cond(v) for v in n.values])
+        if isinstance(n, ast.UnaryOp) and isinstance(n.op, ast.Not):
+            return ("not", cond(n.operand))
+        if isinstance(n, ast.Compare) and len(n.ops) == 1 and isinstance(n.left, ast.Name) and n.left.id in ptys:
+            p, r, op = n.left.id, n.comparators[0], n.ops[0]
+            if ptys[p] == "string":
+                if not (isinstance(r, ast.Constant) and isinstance(r.value, str) and isinstance(op, (ast.Eq, ast.NotEq))):
+                    _fail(n, "string parameter compared with something other than a literal")
+                c = ("streq", "(a_%s a)" % p, r.value)
+                return c if isinstance(op, ast.Eq) else ("not", c)
+            if ptys[p] == "R" and type(op) in CMPOPS:
+                return ("cmp", CMPOPS[type(op)], ("var", "(a_%s a)" % p), ("const", _lit_value(r, "R")))
+        _fail(n, "__init__: condition outside the accepted grammar")
+
+    def ctor(call, table, prefix):
+        if not (isinstance(call, ast.Call) and isinstance(call.func, ast.Name) and call.func.id in table):
+            _fail(call, "__init__: unknown constructor")
+        fl = table[call.func.id]
+
+        def value_of(node, ty):
+            if isinstance(node, ast.Name) and node.id in ptys:
+                if ptys[node.id] != ty:
+                    _fail(node, "__init__: parameter of another type")
+                return "(a_%s a)" % node.id
+            return _coq_value(_lit_value(node, ty), ty)
+
+        got = _ctor_args(call, fl, value_of, "__init__: %s(...)" % call.func.id)
+        args = []
+        for n, ty, d in fl:
+            if n in got:
+                args.append(got[n])
+            elif d is not None or ty == "optR":
+                args.append(_coq_value(d, ty))
+            else:
+                _fail(call, "__init__: constructor argument `%s` missing and without default" % n)
+        return "(Some (%s_%s %s))" % (prefix, call.func.id, " ".join(args))
+
+    def chain(st, attr, table, prefix):
+        """if / elif / else chain assigning self.<attr> -> nested Coq if"""
+        if isinstance(st, ast.Raise):
+            return "None"
+        if isinstance(st, ast.Assign):
+            if not (len(st.targets) == 1 and _is_self_attr(st.targets[0]) and st.targets[0].attr == attr):
+                _fail(st, "__init__: unexpected assignment inside the %s dispatch" % attr)
+            return ctor(st.value, table, prefix)
+        if isinstance(st, ast.If):
+            if len(st.body) != 1 or len(st.orelse) != 1:
+                _fail(st, "__init__: dispatch branches must be single statements")
+            return pif_cfg(cond(st.test), chain(st.body[0], attr, table, prefix),
+                           chain(st.orelse[0], attr, table, prefix))
+        _fail(st, "__init__: statement outside the accepted grammar")
+
+    def pif_cfg(c, T, E):
+        if c[0] == "streq":
+            return "(if String.eqb %s %s then %s else %s)" % (c[1], _coq_string(c[2]), T, E)
+        if c[0] == "and":
+            out = T
+            for x in reversed(c[1]):
+                out = pif_cfg(x, out, E)
+            return out
+        if c[0] == "or":
+            out = E
+            for x in reversed(c[1]):
+                out = pif_cfg(x, T, out)
+            return out
+        if c[0] == "not":
+            return pif_cfg(c[1], E, T)
+        return pif(c, T, E)
+
+    def assigns_attr(st, attr):
+        return any(isinstance(n, ast.Assign) and len(n.targets) == 1 and _is_self_attr(n.targets[0])
+                   and n.targets[0].attr == attr for n in ast.walk(st))
+
+    seen = {"interval": None, "stretch": None}
+    for st in _strip_doc(init.body):
+        if isinstance(st, ast.If) and assigns_attr(st, "interval"):
+            if seen["interval"] is not None or assigns_attr(st, "stretch"):
+                _fail(st, "__init__: interval dispatched twice / mixed with the stretch")
+            seen["interval"] = chain(st, "interval", itv, "IO")
+            continue
+        if isinstance(st, ast.If) and assigns_attr(st, "stretch"):
+            if seen["stretch"] is not None:
+                _fail(st, "__init__: stretch dispatched twice")
+            seen["stretch"] = chain(st, "stretch", stretch, "SO")
+            continue
+        src = ast.unparse(st).replace(" ", "")
+        if src.startswith("super().__init__("):
+            continue
+        if src in ("self.vmin=vmin", "self.vmax=vmax"):
+            continue
+        if src in ("ifdataisnotNone:\nself._set_limits(data)", "ifdataisnotNone:self._set_limits(data)"):
+            continue
+        _fail(st, "__init__: statement outside the accepted grammar")
+    if None in seen.values():
+        raise TranslateError("__init__: interval / stretch dispatch not found")
+    L.append("Definition CN_init_interval (a : CN_args) : option interval_obj :=\n  %s." % seen["interval"])
+    L.append("Definition CN_init_stretch (a : CN_args) : option stretch_obj :=\n  %s." % seen["stretch"])
+    L.append("")
+
+    # ------------------------------------------------------------ _set_limits
+    sl = _method(cn, "_set_limits")
+    if sl is None or [x.arg for x in sl.args.args] != ["self", "data"]:
+        raise TranslateError("CustomNormalization._set_limits signature outside the grammar")
+    body = [s for s in _strip_doc(sl.body)
+            if not (isinstance(s, ast.Return) and (s.value is None or (isinstance(s.value, ast.Constant)
+                                                                       and s.value.value is None)))]
+
+    def manual_from_self(st):
+        """self.interval = ManualInterval(self.vmin, self.vmax) -> (vmin_src, vmax_src) in {'vmin','vmax'}"""
+        ok = (isinstance(st, ast.Assign) and len(st.targets) == 1 and _is_self_attr(st.targets[0])
+              and st.targets[0].attr == "interval" and isinstance(st.value, ast.Call)
+              and isinstance(st.value.func, ast.Name) and st.value.func.id == "ManualInterval")
+        if not ok:
+            _fail(st, "_set_limits: expected `self.interval = ManualInterval(self.vmin, self.vmax)`")
+
+        def value_of(node, ty):
+            if _is_self_attr(node) and node.attr in ("vmin", "vmax"):
+                return node.attr
+            _fail(node, "_set_limits: ManualInterval argument must be self.vmin / self.vmax")
+
+        got = _ctor_args(st.value, itv["ManualInterval"], value_of, "_set_limits: ManualInterval(...)")
+        if set(got) != {"vmin", "vmax"}:
+            _fail(st, "_set_limits: both limits must be passed")
+        return got["vmin"], got["vmax"]
+
+    def pair_assign(st):
+        ok = (isinstance(st, ast.Assign) and len(st.targets) == 1 and isinstance(st.targets[0], ast.Tuple)
+              and len(st.targets[0].elts) == 2 and all(_is_self_attr(e) for e in st.targets[0].elts))
+        if not ok:
+            _fail(st, "_set_limits: expected `self.vmin, self.vmax = ...`")
+        return [e.attr for e in st.targets[0].elts]
+
+    bool_branch = None
+    if body and isinstance(body[0], ast.If):
+        b = body[0]
+        if "dtype" not in ast.unparse(b.test) or "bool" not in ast.unparse(b.test) or b.orelse:
+            _fail(b, "_set_limits: only a boolean-dtype guard is accepted")
+        bb = [s for s in b.body if not isinstance(s, ast.Return)]
+        if len(bb) != 2 or not isinstance(b.body[-1], ast.Return):
+            _fail(b, "_set_limits: boolean-dtype branch outside the grammar")
+        names = pair_assign(bb[0])
+        if not (isinstance(bb[0].value, ast.Tuple) and len(bb[0].value.elts) == 2):
+            _fail(bb[0], "_set_limits: boolean limits must be literals")
+        vals = dict(zip(names, [_lit_value(e, "R") for e in bb[0].value.elts]))
+        a1, a2 = manual_from_self(bb[1])
+        bool_branch = (vals[a1], vals[a2])
+        body = body[1:]
+    if len(body) != 2:
+        raise TranslateError("_set_limits: body outside the accepted grammar")
+    names = pair_assign(body[0])
+    v = body[0].value
+    ok = (isinstance(v, ast.Call) and isinstance(v.func, ast.Attribute) and v.func.attr == "get_limits"
+          and _is_self_attr(v.func.value) and v.func.value.attr == "interval" and len(v.args) == 1
+          and isinstance(v.args[0], ast.Name) and v.args[0].id == "data" and not v.keywords)
+    if not ok or sorted(names) != ["vmax", "vmin"]:
+        _fail(body[0], "_set_limits: expected `self.vmin, self.vmax = self.interval.get_limits(data)`")
+    a1, a2 = manual_from_self(body[1])
+    comp = {names[0]: "(fst lim)", names[1]: "(snd lim)"}
+    L.append("Definition CN_set_limits (o : interval_obj) (quantile : R -> R) (dmin dmax : R) : interval_obj :=\n"
+             "  let lim := io_get_limits o quantile dmin dmax in\n"
+             "  IO_ManualInterval (Some %s) (Some %s)." % (comp[a1], comp[a2]))
+    L.append("Definition CN_limits_attr (o : interval_obj) (quantile : R -> R) (dmin dmax : R) : R * R :=\n"
+             "  let lim := io_get_limits o quantile dmin dmax in (%s, %s)." % (comp["vmin"], comp["vmax"]))
+    if bool_branch is not None:
+        L.append("Definition CN_set_limits_bool : interval_obj := IO_ManualInterval (Some %s) (Some %s)." % (
+            _num(bool_branch[0]), _num(bool_branch[1])))
+    L.append("")
+
+    # ------------------------------------------------------------ presets
+    presets = None
+    for st in tree.body:
+        if (isinstance(st, ast.Assign) and len(st.targets) == 1 and isinstance(st.targets[0], ast.Name)
+                and st.targets[0].id == "NORMALIZATION_PRESETS"):
+            presets = st.value
+    if not isinstance(presets, ast.Dict):
+        raise TranslateError("NORMALIZATION_PRESETS must be a dict literal")
+    rows = []
+    for k, v in zip(presets.keys, presets.values):
+        if not (isinstance(k, ast.Constant) and isinstance(k.value, str)):
+            _fail(presets, "preset name must be a string literal")
+        ok = (isinstance(v, ast.Lambda) and not v.args.args and isinstance(v.body, ast.Call)
+              and isinstance(v.body.func, ast.Name) and v.body.func.id == "NormalizationConfig")
+        if not ok:
+            _fail(v, "preset must be `lambda: NormalizationConfig(<literals>)`")
+        got = _ctor_args(v.body, C.fields, _lit_value, "preset %r" % k.value)
+        if k.value in C.presets:
+            _fail(k, "preset defined twice")
+        C.presets[k.value] = got
+        items = ["nc_%s := %s" % (n, _coq_value(got.get(n, d), ty)) for n, ty, d in C.fields]
+        rows.append("  (%s, {| %s |})" % (_coq_string(k.value), "; ".join(items)))
+    L.append("Definition NORMALIZATION_PRESETS : list (string * NormalizationConfig) :=\n  [\n%s\n  ]." % ";\n".join(rows))
+    return C
+
+
+def config_coq_text(C: ConfigTranslation) -> str:
+    return "\n".join(C.lines) + "\n"
+
+
 def translate(src_path: Path, strict_dtype: bool = True) -> Translation:
     return translate_source(Path(src_path).read_text(), str(src_path), strict_dtype)
 
